@@ -3,6 +3,7 @@ package dagsync
 import (
 	"context"
 	"errors"
+	"sync"
 	"time"
 
 	"github.com/ipfs/go-cid"
@@ -85,6 +86,7 @@ var errModelFault = errors.New("model: injected transport fault")
 var errModelNotFound = errors.New("model: content not found")
 
 func (m *vSyncer) Sync(ctx context.Context, start cid.Cid, sel ipld.Node) error {
+	unlock := ghostLock()
 	m.syncs++
 	m.active++
 	if m.active > m.maxActive {
@@ -96,11 +98,14 @@ func (m *vSyncer) Sync(ctx context.Context, start cid.Cid, sel ipld.Node) error 
 			m.global[1] = m.global[0]
 		}
 	}
+	unlock()
 	defer func() {
+		unlock := ghostLock()
 		m.active--
 		if m.global != nil {
 			m.global[0]--
 		}
+		unlock()
 	}()
 	limit, ok := getRecursionLimit(sel)
 	if !ok {
@@ -110,7 +115,9 @@ func (m *vSyncer) Sync(ctx context.Context, start cid.Cid, sel ipld.Node) error 
 	if l, ok := getStopNode(sel); ok && l != nil {
 		stop = l.(cidlink.Link).Cid
 	}
+	unlock = ghostLock()
 	m.reqs = append(m.reqs, vReq{start, limit, stop})
+	unlock()
 	if ctx.Err() != nil {
 		return ctx.Err()
 	}
@@ -154,6 +161,7 @@ func (m *vSyncer) Sync(ctx context.Context, start cid.Cid, sel ipld.Node) error 
 // vSub builds a Subscriber by hand around the model syncer: no libp2p host,
 // no receiver, no background goroutines.
 type vSub struct {
+	mu         sync.Mutex // native runs only: the ghost state below is touched from several goroutines
 	dispatch   func(peer.ID, cid.Cid)
 	others     []*vSyncer
 	s          *Subscriber
@@ -199,6 +207,10 @@ func newVSubEnts(chain []cid.Cid, adsDepthLimit, firstSyncDepth, segDepthLimit, 
 	}
 	if withHook {
 		s.generalBlockHook = func(p peer.ID, c cid.Cid, a SegmentSyncActions) {
+			if !verif_Symbolic() {
+				v.mu.Lock()
+				defer v.mu.Unlock()
+			}
 			v.hooks++
 			v.log = append(v.log, c)
 			if v.failHookAt == v.hooks {
@@ -249,4 +261,17 @@ func (v *vSub) addPublisher(pid peer.ID, chain []cid.Cid) *vSyncer {
 	hnd := v.s.getOrCreateHandler(pid)
 	hnd.syncer = sy
 	return sy
+}
+
+// ghostLock serialises harness-level bookkeeping in native runs (the symbolic
+// engine runs one goroutine at a time, and a lock there would only add
+// scheduling points).
+var ghostMu sync.Mutex
+
+func ghostLock() func() {
+	if verif_Symbolic() {
+		return func() {}
+	}
+	ghostMu.Lock()
+	return ghostMu.Unlock
 }
